@@ -468,7 +468,7 @@ func C05(c *vf.Ctx) {
 					}
 				}
 				if !o.Obs.Closed {
-					out = append(out, finding{"C05", "connection does not report itself closed after its transport failed", at, nil})
+					out = append(out, finding{"C05", fmt.Sprintf("connection does not report itself closed after its transport failed [%s]", whereSig(o.Where)), at, nil})
 				}
 			} else {
 				if parkedInDrpc(o.Obs.App["sv"]) {
@@ -490,7 +490,7 @@ func C05(c *vf.Ctx) {
 					}
 				}
 				if !so.Obs.Closed && (e == "cli" || so.Obs.Lib["rd_cli"] == "tr" || so.Obs.Lib["rd_cli"] == "done") {
-					out = append(out, finding{"C05", "client connection not closed after the failure reached both sides", st, nil})
+					out = append(out, finding{"C05", fmt.Sprintf("client connection not closed after the failure reached both sides [%s]", whereSig(so.Where)), st, nil})
 				}
 			}
 			if lt, ok := ts.Notes["laterThread"]; ok && len(out) == 0 {
@@ -656,6 +656,10 @@ func C12(c *vf.Ctx) {
 	}
 	runSysFamily(c, fam, nT, nR)
 	serveTeardown(c)
+	// closing must also complete when the peer misbehaved: every Hostile.tla frame sequence, then end of stream
+	hostileManagerWith(c, func(frames []hostileFrame, where string) {
+		c.Violation("teardown does not complete after hostile peer input: "+where, map[string]any{"frames": frames, "bytes": hostileBytes(frames)})
+	})
 	c.Cov["rule"] = "close enumeration on real runs: every prefix (TLC-generated realisable and seeded random workloads, of every length) is followed by Conn.Close (client) or cancellation of the ServeOne context (server) with whatever calls are in flight; judged at the next quiescence: Close returned, transport closed exactly once, no call and no library goroutine left, later calls fail, a second Close returns. drpcserver.Serve teardown is exercised directly with several connections."
 }
 
